@@ -70,17 +70,19 @@ Definition dev_wfb (c : case) : bool := base_wfb c && CtrlC05.reads_backb (k_pm 
 Lemma dev_wfb_wf c : dev_wfb c = true -> dev_wf c.
 Proof. unfold dev_wfb. rewrite andb_true_iff. intros [A B]. split; [apply base_wfb_wf|]; assumption. Qed.
 
-Theorem C01_dev_model_passes c : dev_wf c -> CtrlC01Dev.holdsb (with_obs c (model_obs c)) = true.
+(* the observer guards itself with [reads_backb] (see the counter-example below), so [base_wf] suffices *)
+Theorem C01_dev_model_passes c : base_wf c -> CtrlC01Dev.holdsb (with_obs c (model_obs c)) = true.
 Proof.
-  intros [W Hrb]. pose proof (base_init_inv c W) as I. destruct W as [Hpm Hout (A & B & C)].
-  unfold CtrlC01Dev.holdsb. destruct (forallb _ _); [|reflexivity].
+  intros W. pose proof (base_init_inv c W) as I. destruct W as [Hpm Hout (A & B & C)].
+  unfold CtrlC01Dev.holdsb. destruct (forallb _ _); [|reflexivity]. cbn [andb].
+  destruct (CtrlC05.reads_backb _ _) eqn:Hrb; [|reflexivity].
   exact (dev_run (case_cfg c) _ _ A C Hpm Hout Hrb (k_hist c) (case_init c) I eq_refl).
 Qed.
 
-Theorem C01_dev_no_false_alarm c : mismatch c = false -> dev_wf c -> CtrlC01Dev.holdsb c = true.
+Theorem C01_dev_no_false_alarm c : mismatch c = false -> base_wf c -> CtrlC01Dev.holdsb c = true.
 Proof. intros M W. rewrite <- (agree_with_obs c M) at 1. apply C01_dev_model_passes; exact W. Qed.
 
-(* Without the reads-back hypothesis the observer can raise a false alarm on a model-conformant run: a device
+(* Why the guard is there: without the reads-back condition the scan is false of a model-conformant run — a device
    quantising to multiples of 5 that happens to show 7 (initial content), a map sending everything to 7:
    the cycle finds the expected value already there, skips the write, and the control keeps 7 <> 7/5*5. *)
 Definition dev_counterexample : case :=
@@ -90,5 +92,7 @@ Definition dev_counterexample : case :=
 Example dev_needs_reads_back :
   base_wfb dev_counterexample = true
   /\ mismatch (with_obs dev_counterexample (model_obs dev_counterexample)) = false
-  /\ CtrlC01Dev.holdsb (with_obs dev_counterexample (model_obs dev_counterexample)) = false.
+  /\ CtrlC01Dev.dev_scan (k_pm dev_counterexample) (supported (k_pm dev_counterexample)) (k_q dev_counterexample)
+       (zip (k_hist dev_counterexample) (model_obs dev_counterexample)) = false
+  /\ CtrlC01Dev.holdsb (with_obs dev_counterexample (model_obs dev_counterexample)) = true.
 Proof. vm_compute. repeat split. Qed.
